@@ -1,4 +1,5 @@
 import OdfModel.Abs
+import OdfModel.Transform
 /-!
 The operation alphabet of C01 as a datatype, with the step functions of the code-level model
 (`step`, partial: `none` = the call raises) and of the spec grid (`gstep`).
@@ -20,6 +21,8 @@ inductive Op where
   | deleteColumn (x : Int)
   | setCells (x y : Int) (m : List (List (Nat × Nat)))   -- set_cells(matrix, coord): cells with their repeats
   | setValues (x y : Int) (m : List (List Nat))          -- set_values(matrix, coord)
+  | rstrip (aggressive : Bool)                           -- rstrip(aggressive)
+  | transpose                                            -- transpose() of the whole table
 
 /-- arguments the API can receive: repeat counts are `repeated or 1`, cells of a row too -/
 def Op.Valid : Op → Prop
@@ -36,6 +39,8 @@ def Op.Valid : Op → Prop
   | .deleteColumn _ => True
   | .setCells _ _ m => ∀ line ∈ m, ∀ c ∈ line, 1 ≤ c.2
   | .setValues _ _ _ => True
+  | .rstrip _ => True
+  | .transpose => True
 
 def step (t : Tbl) : Op → Option Tbl
   | .setCell x y c rep => setCell t x y c rep
@@ -51,6 +56,8 @@ def step (t : Tbl) : Op → Option Tbl
   | .deleteColumn x => deleteColumn t x
   | .setCells x y m => setCells t x y m
   | .setValues x y m => setValues t x y m
+  | .rstrip a => some (Odf.Transform.tblRstrip (Odf.Transform.empOf a) t)
+  | .transpose => some (Odf.Transform.tblTranspose t)
 
 open Odf.Grid in
 def gstep (g : Grid) : Op → Grid
@@ -67,6 +74,8 @@ def gstep (g : Grid) : Op → Grid
   | .deleteColumn x => Grid.deleteColumn g x
   | .setCells x y m => Grid.setCells g x y m
   | .setValues x y m => Grid.setValues g x y m
+  | .rstrip a => Odf.Transform.gridRstrip (Odf.Transform.empOf a) g
+  | .transpose => Odf.Transform.transposeG g
 
 /-- run a history; `none` as soon as a call raises -/
 def run (t : Tbl) : List Op → Option Tbl
